@@ -2,7 +2,7 @@
 import ast
 import re
 from ..model import own_nodes, AnalysisError
-from ..paths import factmap, call_text, returns, must_call
+from ..paths import ctext, factmap, call_text, returns, must_call
 from ..defuse import closed_text
 from ..escape import Escape
 
@@ -204,7 +204,7 @@ def run(P, R):
             'load_model_rules recurses with `%s` / without the early return under loop_check == 0' %
             [ast.unparse(c.args[2]) for c in rec])
     first = [s for s in u.node.body if not (isinstance(s, ast.Expr) and isinstance(s.value, ast.Constant))][0]
-    ok = isinstance(first, ast.If) and ast.unparse(first.test) == 'loop_check == 0' and \
+    ok = isinstance(first, ast.If) and ctext(first.test) == ctext('loop_check == 0') and \
         any(isinstance(x, ast.Return) for x in first.body)
     R.check(r3, ok, 'the depth test is the first statement', 'recursion|first', u.loc(),
             'load_model_rules does not start with `if loop_check == 0: return`')
